@@ -65,5 +65,10 @@ package types
 //@ func (k AccountKeeper) SetModuleAccount
 //@ trusted
 //@ modifies Other
+// C16: an account's restaked power is the sum of its staked coins over the allowed denoms - each allowed denom counted
+// ONCE. The code sums over the parameter list, so the list accepted by validation must not name a denom twice (with
+// ["uband","uband"] 100 staked uband would count as 200 power, and a lock of 200 would be accepted).
 //@ func (p Params) Validate
-//@ trusted
+//@ ensures err == nil ==> (forall i Int, j Int :: 0 <= i && i < j && j < len(p.AllowedDenoms) ==> p.AllowedDenoms[i] != p.AllowedDenoms[j])
+//@ loop 0: invariant forall a Int, b Int :: 0 <= a && a < b && b < #i ==> p.AllowedDenoms[a] != p.AllowedDenoms[b]
+//@ loop 1: invariant forall a Int :: 0 <= a && a < #i ==> p.AllowedDenoms[a] != denom
